@@ -857,5 +857,7 @@ def asciiEnv : Env (List Char) where
   encode := fun _ s => some (s.map (fun c => UInt8.ofNat c.toNat))
   empty := []
   validType := fun n => [0,1,2,3,4,5,6,7,8,9,10,11,12,13,15,16,245,246,247,248,249,250,251,252,253,254,255,244].contains n
+  fltText := fun b => b.map (fun x => Char.ofNat x.toNat)
+  paramAt := fun c after => Mimic.Params.isPh 0 c after
 
 end MimicProofs.ParsersCode
